@@ -221,15 +221,52 @@ def _is_empty_vec(ts):
 
 
 def _ok_blocks(fn):
+    """sites (block, stmt) where the Ok value the function returns is built: `_0 = Ok(..)`, or `x = Ok(..)` for a local x whose
+    only use is being moved into the return place (`let outcome = loop { .. break Ok(path) .. }; outcome`)"""
     out = []
+    carriers = {0}
+    for _ in range(3):
+        for bi, blk in enumerate(fn.blocks):
+            if blk['cleanup']:
+                continue
+            for st in blk['stmts']:
+                if st['k'] == 'assign' and st['place']['l'] in carriers and not st['place']['p'] and st['rv']['k'] == 'use':
+                    src = st['rv']['op'].get('move')
+                    if src is not None and not src['p'] and src['l'] not in carriers and \
+                            fn.b.local_ty(src['l']).startswith('std::result::Result<'):
+                        # the local is read nowhere else
+                        reads = 0
+                        for blk2 in fn.blocks:
+                            if blk2['cleanup']:
+                                continue
+                            for st2 in blk2['stmts']:
+                                if st2['k'] == 'assign' and _reads_local(st2['rv'], src['l']):
+                                    reads += 1
+                            t2 = blk2['term']
+                            if t2['k'] == 'call' and any(_reads_local(a, src['l']) for a in t2['args']):
+                                reads += 1
+                            if t2['k'] == 'switch' and _reads_local(t2['discr'], src['l']):
+                                reads += 1
+                        if reads == 1:
+                            carriers.add(src['l'])
     for bi, blk in enumerate(fn.blocks):
         if blk['cleanup']:
             continue
         for si, st in enumerate(blk['stmts']):
-            if st['k'] == 'assign' and st['place']['l'] == 0 and not st['place']['p'] and \
+            if st['k'] == 'assign' and st['place']['l'] in carriers and not st['place']['p'] and \
                     st['rv']['k'] == 'agg' and st['rv'].get('variant_name') == 'Ok':
                 out.append((bi, si))
     return out
+
+
+def _reads_local(x, l):
+    if isinstance(x, dict):
+        if 'l' in x and 'p' in x and isinstance(x['p'], list):
+            return x['l'] == l
+        return any(_reads_local(v, l) for k, v in x.items() if k not in ('span',))
+    if isinstance(x, list):
+        return any(_reads_local(v, l) for v in x)
+    return False
 
 
 def _err_name_of(m):
